@@ -327,9 +327,13 @@ def handle (j : Json) : Except String Json := do
     let m ← parseMode (← getStr j "mode")
     let b ← parseBase (← getStr j "base")
     let data ← fromHex (← getStr j "hex")
-    let g : XsVerif.OpenFlow.Given := { st := { seekable := ← getBool j "seekable", data := data, pos := 0 },
-      io := ← parseIo (← getStr j "io"), hasOpener := ← getBool j "opener",
-      declared := if (← getBool j "declared") then some 1 else none }
+    let sk ← getBool j "seekable"
+    let io ← parseIo (← getStr j "io")
+    let op ← getBool j "opener"
+    let decl ← getBool j "declared"
+    let du : Option Nat := if decl then some 1 else none
+    let st0 : XsVerif.OpenFlow.Stream := ⟨sk, data, 0⟩
+    let g : XsVerif.OpenFlow.Given := ⟨st0, io, op, du⟩
     let web : Nat → List Nat := fun u => if u = 1 then [0] else []
     let sc := XsVerif.OpenFlow.scanInput v m b web g
     return Json.mkObj [("plan", planStr (plan v m b g.chan)),
